@@ -76,7 +76,9 @@ func (m *Mast) loadPersisted(ctx context.Context, l string) (*mastNode, error) {
 	if m.debug {
 		fmt.Printf("loaded node %s->%v\n", l, node)
 	}
-	validateNode(ctx, &node, m)
+	if err = validateNode(ctx, &node, m); err != nil {
+		return nil, fmt.Errorf("node %s: %w", l, err)
+	}
 	if m.nodeCache != nil {
 		m.nodeCache.Add(cacheKey, &node)
 	}
